@@ -3,6 +3,7 @@ mod c27;
 mod c27h;
 mod c27n;
 mod c28;
+mod c29;
 mod enc;
 mod forcenv;
 
@@ -27,6 +28,8 @@ fn main() {
             match args[1].as_str() {
                 "C27" => c27::run(&Ctx::new("C27", &tier)),
                 "C28" => c28::run(&Ctx::new("C28", &tier)),
+                "C29" => c29::run(&Ctx::new("C29", &tier)),
+                "c29-dump" => c29::dump(&args[2..]),
                 "c28-dump" => c28::dump(&args[2..]),
                 "c27-dump" => c27::dump(&args[2..]),
                 "c27-src" => c27::run_src(&args[2..]),
@@ -50,7 +53,8 @@ fn main() {
 fn probe(args: &[String]) {
     let dir = std::path::PathBuf::from(&args[0]);
     let t = std::time::Instant::now();
-    let b = match forcenv::build(&dir, args.get(1).map(|s| s == "release").unwrap_or(false)) {
+    let exp = if std::env::var("VP_DYNAMIC_STORAGE").is_ok() { vec![sway_features::Feature::DynamicStorage] } else { vec![] };
+    let b = match forcenv::build_with(&dir, args.get(1).map(|s| s == "release").unwrap_or(false), exp) {
         Ok(b) => b,
         Err(e) => {
             println!("build failed: {e:#}");
@@ -80,6 +84,7 @@ fn replay(path: &str) {
     let res: Result<(), String> = match prop.as_str() {
         "C27" => c27::replay(case),
         "C28" => c28::replay(case),
+        "C29" => c29::replay(case),
         _ => Err(format!("no stand-alone replay for {prop}")),
     };
     vcore::fastc::drop_thread_fastc();
@@ -109,7 +114,7 @@ pub fn in_flight(what: Option<&str>) {
 }
 pub fn spawn_watchdog(prop: &str) {
     let prop = prop.to_string();
-    let limit: u64 = std::env::var("VP_WATCHDOG_S").ok().and_then(|s| s.parse().ok()).unwrap_or(300);
+    let limit: u64 = std::env::var("VP_WATCHDOG_S").ok().and_then(|s| s.parse().ok()).unwrap_or(1200);
     std::thread::spawn(move || loop {
         std::thread::sleep(std::time::Duration::from_secs(5));
         let stuck: Vec<String> = IN_FLIGHT.lock().unwrap().iter().filter(|e| e.1.elapsed().as_secs() >= limit).map(|e| e.2.clone()).collect();
